@@ -7,13 +7,15 @@ PROP = "C03"
 RULE = ("cases = API call sequences over 1..4 processes (pids 100..999, duplicates allowed, equal and unordered start times, thread-less processes) and 0..4 threads each (tids duplicated across and "
         "inside processes, several or no main threads, threads registered before their process's main thread, named and unnamed), 0..3 libraries with mappings, 5..60 further calls: add_sample with "
         "stacks of 0..6 frames built frame by frame from label frames, instruction-pointer and return-address frames inside and outside the mapped libraries, with repeated and shared frames, "
-        "prefixes and whole stacks; Text markers with and without stacks; counters on processes with and without threads; initial visible / selected threads. Observed: every table of every thread of "
+        "prefixes and whole stacks; Text markers (static schema) and markers of 0..3 runtime-registered types with 0..4 fields (unique-string, plain string, number; types registered up front or late, "
+        "between markers of other types; all four timings) with and without stacks; counters on processes with and without threads; initial visible / selected threads. Observed: every table of every thread of "
         "the JSON (column lengths, index columns with their target table, stack prefix column), the thread order, tid/pid strings, meta.initialVisibleThreads / initialSelectedThreads, "
-        "counters[].mainThreadIndex, the frames obtained by walking each sample's and marker's stack. non-trivial = at least two threads and one sample")
+        "counters[].mainThreadIndex, the frames obtained by walking each sample's and marker's stack, every marker's name and field values (unique-string fields read back through the thread's string table). "
+        "non-trivial = at least two threads and one sample")
 TRUSTED = ["harness h_fxprof/src/prof.rs (calls the public API, prints serde_json::to_string)", "vlib/c03.py: which JSON column points into which table (the index-column catalogue below), "
            "the rendering of frames as content ids (label text / library name + relative address), the expected resolution of addresses against the mappings added at process creation (C11 covers mapping semantics)",
            "pids, tids and names are generated with fixed digit widths so that the crate's string comparisons agree with the numeric comparisons of the model"]
-ASSUMPTIONS = ["the handle discipline the API documents: handles are used with the thread / process they were created for", "counters and allocation samples only where the format allows them; no JS frames, no inline frames, no runtime marker schemas (listed in DESIGN.md as not yet covered)"]
+ASSUMPTIONS = ["the handle discipline the API documents: handles are used with the thread / process they were created for", "counters and allocation samples only where the format allows them; no JS frames, no inline frames (listed in DESIGN.md as not yet covered)"]
 _state = {}
 
 
@@ -84,6 +86,14 @@ def gen(tier, rng, scale):
                             frames_pool.append("r%x" % (x + 1))
         stacks_pool = []
         times = {}
+        gkinds = []
+        for g in range(rng.choice([0, 1, 2, 2, 3])):
+            kinds = "".join(rng.choice("uuspznn") for _ in range(rng.choice([0, 1, 1, 2, 3, 4])))
+            gkinds.append(kinds)
+            if rng.chance(1, 2):
+                ops.append(["G", "Ty%d" % g, kinds or "-"])
+        pending_g = [g for g in range(len(gkinds)) if not any(o[0] == "G" and o[1] == "Ty%d" % g for o in ops)]
+        registered = [g for g in range(len(gkinds)) if g not in pending_g]
         for _ in range(rng.range(5, 60)):
             r = rng.below(100)
             if r < 60 and threads:
@@ -98,11 +108,24 @@ def gen(tier, rng, scale):
                     fr = [rng.choice(frames_pool) for _ in range(rng.range(0, 6))]
                 stacks_pool.append(fr)
                 ops.append(["S", th, t, rng.choice([1, 1, 2]), ] + fr)
-            elif r < 72 and threads:
+            elif r < 66 and threads:
                 th = rng.below(len(threads))
                 t = times.get(th, 100) + rng.range(1, 50)
                 fr = [rng.choice(frames_pool) for _ in range(rng.range(0, 4))] if rng.chance(1, 2) else []
                 ops.append(["K", th, t, rng.choice(["mk", "foo", "gc"]), rng.choice(["txt", "foo", "x"])] + fr)
+            elif r < 72 and threads and (registered or pending_g):
+                if pending_g and (not registered or rng.chance(1, 2)):
+                    g = pending_g.pop(0)           # a type registered late, between markers of other types
+                    ops.append(["G", "Ty%d" % g, gkinds[g] or "-"])
+                    registered.append(g)
+                g = rng.choice(registered)
+                # the k-th G op in the line defines runtime type #k
+                tyno = [o[1] for o in ops if o[0] == "G"].index("Ty%d" % g)
+                th = rng.below(len(threads))
+                t = times.get(th, 100) + rng.range(1, 50)
+                vals = [str(rng.below(1000)) if k == "n" else rng.choice(["foo", "bar", "txt", "v%d" % rng.below(5), "mk"]) for k in gkinds[g]]
+                fr = [rng.choice(frames_pool) for _ in range(rng.range(0, 4))] if rng.chance(1, 3) else []
+                ops.append(["R", th, rng.choice("IVBE"), t, t + rng.below(20), tyno, rng.choice(["mk", "rm", "foo"]), ",".join(vals) or "-"] + fr)
             elif r < 80:
                 p = rng.below(nproc)
                 ops.append(["C", p, "ctr%d" % counters])
@@ -120,10 +143,20 @@ def gen(tier, rng, scale):
 def _valid(ops):
     """drop calls whose handles no longer exist after shrinking"""
     np = nt = nl = nc = 0
+    gk = []
     out = []
     for o in ops:
         k = o[0]
-        if k == "P":
+        if k == "G":
+            gk.append("" if o[2] == "-" else o[2])
+        elif k == "R":
+            if o[1] >= nt or o[5] >= len(gk):
+                continue
+            vals = [] if o[7] == "-" else o[7].split(",")
+            kinds = gk[o[5]]
+            if len(vals) != len(kinds) or any(kd == "n" and not v.isdigit() for kd, v in zip(kinds, vals)):
+                continue
+        elif k == "P":
             np += 1
         elif k == "L":
             nl += 1
@@ -163,13 +196,23 @@ IDX = {"stackTable": [("prefix", "stackTable"), ("frame", "frameTable")],
        "nativeSymbols": [("libIndex", "@libs"), ("name", "@strings")],
        "samples": [("stack", "stackTable")],
        "markers": [("name", "@strings"), ("category", "@categories")]}
+BAD = 999999999
+
+
+def _kinds_by_type(ops):
+    kb = {"Text": (["name"], "u")}
+    for o in ops:
+        if o[0] == "G":
+            kinds = "" if o[2] == "-" else o[2]
+            kb[o[1]] = (["f%d" % i for i in range(len(kinds))], kinds)
+    return kb
 
 
 def _opt(v):
     return "None" if v is None or (isinstance(v, int) and v < 0) else "(Some %d%%nat)" % v
 
 
-def _thread_json(th, nlibs, ncats):
+def _thread_json(th, nlibs, ncats, kb):
     def tlen(name):
         if name == "@strings":
             return len(th["stringArray"])
@@ -191,8 +234,10 @@ def _thread_json(th, nlibs, ncats):
             strs, stacks = [], []
             for dta in tb["data"]:
                 if isinstance(dta, dict):
-                    if isinstance(dta.get("name"), int):
-                        strs.append(dta["name"])
+                    keys, kinds = kb.get(dta.get("type"), ([], ""))
+                    for key, kd in zip(keys, kinds):
+                        if kd == "u" and isinstance(dta.get(key), int) and not isinstance(dta.get(key), bool):
+                            strs.append(dta[key])
                     if isinstance(dta.get("cause"), dict) and isinstance(dta["cause"].get("stack"), int):
                         stacks.append(dta["cause"]["stack"])
             idx.append("(%s, %d%%nat)" % (K.coq_list([_opt(v) for v in strs]), tlen("@strings")))
@@ -225,6 +270,9 @@ def _coq_case(ops, prof):
     procs, threads, libs, maps = [], [], [], {}
     samples, mstacks, visible, selected, counters = [], [], [], [], []
     reqs = []
+    mops, nschemas, gtypes, text_ty = [], 0, [], None
+    kb = _kinds_by_type(ops)
+    KIND = {"u": "KUnique", "s": "KStr", "p": "KStr", "z": "KStr", "n": "KNum"}
     symtabs = {}
 
     def sym_lookup(lib, rel):
@@ -303,7 +351,29 @@ def _coq_case(ops, prof):
             samples.append((o[1], o[2], [expect(threads[o[1]][0], f) for f in o[4:]]))
             for f in o[4:]:
                 request(o[1], threads[o[1]][0], f)
+        elif k == "G":
+            kinds = "" if o[2] == "-" else o[2]
+            mops.append("(None, 0, MReg %s)" % K.coq_list([KIND[x] for x in kinds]))
+            gtypes.append((nschemas, kinds))
+            nschemas += 1
+        elif k == "R":
+            ty, kinds = gtypes[o[5]]
+            vals = [] if o[7] == "-" else o[7].split(",")
+            reqs.append("(%d%%nat, FString %d)" % (o[1], S(o[6])))
+            for kd, v in zip(kinds, vals):
+                if kd == "u":
+                    reqs.append("(%d%%nat, FString %d)" % (o[1], S(v)))
+            mops.append("(Some %d%%nat, %d, MAdd %d%%nat %s)" % (o[1], S(o[6]), ty, K.coq_list([str(int(v)) if kd == "n" else str(S(v)) for kd, v in zip(kinds, vals)])))
+            if len(o) > 8:
+                mstacks.append((o[1], [expect(threads[o[1]][0], f) for f in o[8:]]))
+                for f in o[8:]:
+                    request(o[1], threads[o[1]][0], f)
         elif k == "K":
+            if text_ty is None:
+                mops.append("(None, 0, MReg [KUnique])")
+                text_ty = nschemas
+                nschemas += 1
+            mops.append("(Some %d%%nat, %d, MAdd %d%%nat [%d])" % (o[1], S(o[3]), text_ty, S(o[4])))
             reqs.append("(%d%%nat, FString %d)" % (o[1], S(o[3])))
             reqs.append("(%d%%nat, FString %d)" % (o[1], S(o[4])))
             if len(o) > 5:
@@ -353,7 +423,7 @@ def _coq_case(ops, prof):
         for dta in th["markers"]["data"]:
             if isinstance(dta, dict) and isinstance(dta.get("cause"), dict):
                 mst.append(_opt(dta["cause"].get("stack")))
-        oth.append("(%s, %s, %s, %s, %s, %s, %s)" % (_id(th["pid"]), _id(th["tid"]), "true" if th["isMainThread"] else "false", _thread_json(th, nlibs, ncats),
+        oth.append("(%s, %s, %s, %s, %s, %s, %s)" % (_id(th["pid"]), _id(th["tid"]), "true" if th["isMainThread"] else "false", _thread_json(th, nlibs, ncats, kb),
                                                      K.coq_list(stack_keys), K.coq_list(rows), K.coq_list(mst)))
     otables = []
     for th in prof["threads"]:
@@ -367,6 +437,35 @@ def _coq_case(ops, prof):
             K.coq_list([_opt(x) for x in ft["nativeSymbol"]]),
             K.coq_list(["%d%%nat" % x for x in th["nativeSymbols"]["libIndex"]]), K.coq_list([str(x) for x in th["nativeSymbols"]["address"]]),
             K.coq_list(["%d%%nat" % x for x in th["nativeSymbols"]["name"]])))
+    obmarkers = []
+    for th in prof["threads"]:
+        strings = th["stringArray"]
+        mk = th["markers"]
+        rows = []
+        for i in range(mk["length"]):
+            try:
+                nm = S(strings[mk["name"][i]])
+            except Exception:
+                nm = BAD
+            dta = mk["data"][i] if i < len(mk["data"]) else None
+            vals = []
+            if isinstance(dta, dict) and dta.get("type") in kb:
+                keys, kinds = kb[dta["type"]]
+                extra = [x for x in dta if x not in keys and x not in ("type", "cause")]
+                for key, kd in zip(keys, kinds):
+                    v = dta.get(key)
+                    if kd == "u":
+                        vals.append(S(strings[v]) if isinstance(v, int) and not isinstance(v, bool) and 0 <= v < len(strings) else BAD)
+                    elif kd in "spz":
+                        vals.append(S(v) if isinstance(v, str) else BAD)
+                    else:
+                        vals.append(int(v) if isinstance(v, (int, float)) and not isinstance(v, bool) and float(v) == int(v) and v >= 0 else BAD)
+                if extra:
+                    vals.append(BAD)
+            else:
+                vals = [BAD]
+            rows.append("(%d, %s)" % (nm, K.coq_list([str(x) for x in vals])))
+        obmarkers.append(K.coq_list(rows))
     oblibs = []
     for l in prof["libs"]:
         nm = l["name"]
@@ -374,14 +473,14 @@ def _coq_case(ops, prof):
     meta = prof["meta"]
     obc = ["(%d%%nat, %s)" % (c["mainThreadIndex"], _id(c["pid"])) for c in prof.get("counters", [])]
     nat = lambda l: K.coq_list(["%d%%nat" % x for x in l])
-    return "(mkCase %s %s %s %s %s %s %s %s %s %s %s %s %s %s)" % (
+    return "(mkCase %s %s %s %s %s %s %s %s %s %s %s %s %s %s %s %s)" % (
         K.coq_list(["(%d, %d)" % p for p in procs]),
         K.coq_list(["(%d%%nat, %d, %d, %s, %s)" % (t[0], t[1], t[2], "true" if t[3] else "false", "None" if t[4] is None else "(Some %d)" % t[4]) for t in threads]),
         K.coq_list(["(%d%%nat, %d, %s)" % (h, t, nat(fr)) for h, t, fr in samples]),
         K.coq_list(["(%d%%nat, %s)" % (h, nat(fr)) for h, fr in mstacks]),
         nat(visible), nat(selected), nat(counters), K.coq_list(oth),
         nat(meta.get("initialVisibleThreads", [])), nat(meta.get("initialSelectedThreads", [])), K.coq_list(obc),
-        K.coq_list(reqs), K.coq_list(oblibs), K.coq_list(otables))
+        K.coq_list(reqs), K.coq_list(oblibs), K.coq_list(otables), K.coq_list(mops), K.coq_list(obmarkers))
 
 
 def evaluate(cases):
@@ -411,6 +510,8 @@ def evaluate(cases):
             stats["stack_rows"] += th["stackTable"]["length"]
             stats["frames"] += th["frameTable"]["length"]
             stats["markers"] += th["markers"]["length"]
+            stats["runtime_schema_markers"] = stats.get("runtime_schema_markers", 0) + sum(1 for d in th["markers"]["data"] if isinstance(d, dict) and d.get("type") != "Text")
+            stats["marker_fields"] = stats.get("marker_fields", 0) + sum(max(len(d) - 1 - ("cause" in d), 0) for d in th["markers"]["data"] if isinstance(d, dict))
             stats["native_symbols"] = stats.get("native_symbols", 0) + th["nativeSymbols"]["length"]
         stats["counters"] += len(prof.get("counters", []))
         stats["visible_refs"] += len(prof["meta"].get("initialVisibleThreads", []))
@@ -421,7 +522,7 @@ def evaluate(cases):
         idx.append(i)
     shards = [K.case_defs("c03case", ch) for ch in K.chunked(terms, K.NCPU)]
     try:
-        res = K.coq_eval(PROP, "From SV Require Import Model.ProfileTables Model.FrameTables Tie.C03.\nOpen Scope N_scope.", shards)
+        res = K.coq_eval(PROP, "From SV Require Import Model.ProfileTables Model.FrameTables Model.MarkerTable Tie.C03.\nOpen Scope N_scope.", shards)
     except RuntimeError as ex:
         raise K.TieBroken(str(ex))
     flat = [v for r in res for v in r]
